@@ -20,6 +20,30 @@ Definition parser_of (p : proto) : bytes -> pout := match p with Bin => parse_bi
 Definition enc_of (p : proto) : req -> bytes := match p with Bin => enc_bin | Text => enc_text end.
 Definition wf_of (p : proto) : req -> bool := match p with Bin => wf_bin | Text => wf_text end.
 
+(* For the oracle (not for the theorems) text keys may also contain bytes >= 128 (UTF-8), as
+   memcached allows, as long as the key starts and ends with a printable ASCII byte: the parser
+   splits the line at 0x20 only and trims white space - also Unicode white space - only at the
+   ends of the line. *)
+Definition keybyte_loose (b : N) : bool := ((33 <=? b) && (b <=? 126)) || ((128 <=? b) && (b <=? 255)).
+Definition tkey_loose (k : bytes) : bool :=
+  match k, rev k with
+  | a :: _, z :: _ => keybyte_okb a && keybyte_okb z && forallb keybyte_loose k
+  | _, _ => false
+  end.
+Definition loosen (r : req) : req :=
+  (* the same request with every key replaced by a printable stand-in of the same length when it is loosely fine *)
+  let fix1 := fun k : bytes => if tkey_loose k then map (fun _ => 107) k else k in
+  match r with
+  | RSet m k d f t o q => RSet m (fix1 k) d f t o q
+  | RCat fr k d o q => RCat fr (fix1 k) d o q
+  | RGet items no ne => RGet (map (fun g => mkGI (fix1 (gi_key g)) (gi_opaque g) (gi_quiet g)) items) no ne
+  | RDelete k o => RDelete (fix1 k) o
+  | RTouch k t o => RTouch (fix1 k) t o
+  | _ => r
+  end.
+Definition wf_chk (p : proto) (r : req) : bool :=
+  match p with Bin => wf_bin r | Text => wf_text (loosen r) end.
+
 Fixpoint parse_n (p : bytes -> pout) (n : nat) (s : bytes) : list req * N * bytes :=
   match n with
   | O => ([], 0, s)
@@ -37,7 +61,7 @@ Definition check07 (c : case07) : N :=
   | KPipe p intent junk wire seen status unread =>
       let '(ml, mst, mrest) := parse_n (parser_of p) (length intent) wire in
       let model_ok := reqs_eqb ml seen && (mst =? status) && ((status =? 1) || (len mrest =? unread)) in
-      if forallb (wf_of p) intent then
+      if forallb (wf_chk p) intent then
         let oracle_ok := (status =? 0) && reqs_eqb seen intent && (unread =? len junk) in
         let enc_ok := bytes_eqb wire (concat (map (enc_of p) intent) ++ junk) in
         if negb oracle_ok then (if model_ok then 3 else 2)
